@@ -397,6 +397,8 @@ static int inc_open (char *buf, size_t size, const char *name) {
       opt_trace (TT_COMPILE|3, "opened (fd %d): \"%s\"", fd, buf);
       return fd;
     }
+  /* a file that appears here later is included instead of the one we are going to find */
+  add_program_file_absent (buf);
   /*
    * Search all include dirs specified.
    */
@@ -418,6 +420,7 @@ static int inc_open (char *buf, size_t size, const char *name) {
           opt_trace (TT_COMPILE|3, "opened (fd %d): \"%s\"", fd, buf);
           return fd;
         }
+      add_program_file_absent (buf);
     }
   return -1;
 }
